@@ -5,6 +5,7 @@ import Noodles.Fasta.DriverC11
 import Noodles.Bgzf.Driver
 import Noodles.Bgzf.DriverC02
 import Noodles.Bgzf.DriverC03
+import Noodles.Cram.DriverC19
 namespace Noodles
 open Noodles.Wire
 
@@ -16,6 +17,7 @@ def dispatch (line : String) : String :=
   | "c02" :: rest => Bgzf.RM.handleC02 rest
   | "c03" :: rest => MtModel.handleC03 rest
   | "c11" :: rest => Fasta.handleC11 rest
+  | "c19" :: rest => Cram.Index.handleC19 rest
   | _ => "bad-suite"
 
 end Noodles
